@@ -380,7 +380,7 @@ def struct_rules(ctx, item):
                 cf = ctx.prog.fns[arg[1]]
                 ex = cf.exits()
                 flt_ok = flt_ok and len(ex) == 1 and ex[0]['expr'][0] == 'un' and ex[0]['expr'][1] == 'Not' and is_call_(ex[0]['expr'][2], 'Function::is_internal')
-    ctx.ob(['C04', 'C07', 'C14'], 'R-TMPL', 'struct|method-filter', flt_ok, 'the only wrappers left out are functions whose name starts with `_` (is_internal)', where)
+    ctx.ob(['C04', 'C07', 'C14', 'C05'], 'R-TMPL', 'struct|method-filter', flt_ok, 'the only wrappers left out are functions whose name starts with `_` (is_internal)', where)
     # AsRef / AsMut
     m = re.search(r'REP(\d+)\( ⟨E\d+:ALT(\d+)\{ ' + DOCS.replace('REP(\\d+)', 'REP\\d+') + r' const ' + H + r' : \(  \) = \(  \) ; \|\| impl (?::: )?(?:std|core) :: convert :: AsRef < ' + H + r' > for ' + H + r' \{ fn as_ref \( & self \) -> & ' + H +
                   r' \{ & self REP(\d+)\( \. ⟨L(\d+)⟩ \)\* \} \} impl (?::: )?(?:std|core) :: convert :: AsMut < ' + H + r' > for ' + H + r' \{ fn as_mut \( & mut self \) -> & mut ' + H +
@@ -533,7 +533,7 @@ def enum_rules(ctx, item):
             okdv = len(got) == 3 and all(nm in want and want[nm] in cs and cs.endswith('=True') for nm, cs in got)
             det += ' derives %s' % got
         ctx.ob(['C17', 'C13', 'C08'], 'R-TMPL', 'enum|derives', okdv, 'enum derives: the fixed comparison traits plus Copy/Clone/Default iff copyable/cloneable/defaultable', where)
-    ctx.ob(['C08', 'C02', 'C17', 'C14'], 'R-TMPL', 'enum|shape', ok,
+    ctx.ob(['C08', 'C02', 'C17', 'C14', 'C13'], 'R-TMPL', 'enum|shape', ok,
            '<the enum\'s own docs> #[repr(<resolved base type>)] enum <item name> { one variant per (name, value) pair in order, each `Name = value` }: %s' % det, where)
     # F13: value-changing cast on the interpolated discriminant
     ctx.ob(['C08'], 'R-TMPL', 'enum|no-lossy-discriminant-cast', ok and not cast,
@@ -658,7 +658,7 @@ def fn_rules(ctx, fn):
         ok1 = (pcc[0] == 'function.calling_convention' and is_call_(strip(ccexpr), 'CallingConvention::as_str') and base == 'function.arguments' and chain == ['iter', 'map', 'collect'] and
                pa[0] is not None and pa[0].endswith('function.body.Address#0') and 'hex_literal' in pa[1] and prt2[0] == prt[0] and okc and re.fullmatch(ARGS_CALL, call) is not None and
                ret_present_exact(fn.opts[int(ro)][1]))
-    ctx.ob(['C05', 'C16'], 'R-TMPL', 'fn|address-body', ok1,
+    ctx.ob(['C05', 'C16', 'C13'], 'R-TMPL', 'fn|address-body', ok1,
            'Address body: `let f: unsafe extern "<function.calling_convention>" fn(<this: *const/*mut Self | name: type, in order>) [-> ret] = transmute(<address> as usize); f(<receiver, then the arguments in order>)` with the call in tail position: %s' % det, where)
     # Field arm
     b = arms[1]
@@ -683,7 +683,7 @@ def fn_rules(ctx, fn):
         okc, dc = call_args(call, 'vft', True)
         det = 'slot %s; call %s' % (ps[0], dc)
         ok3 = ps[0] is not None and ps[0].endswith('function.body.Vftable#0') and okc and re.fullmatch(ARGS_CALL, call) is not None
-    ctx.ob(['C04'], 'R-TMPL', 'fn|vftable-body', ok3,
+    ctx.ob(['C04', 'C13'], 'R-TMPL', 'fn|vftable-body', ok3,
            'Vftable body: `let f = addr_of!((*self.vftable()).<function_name>).read(); f(<receiver, then the arguments in order>)` — one load of this object\'s table, one call, in tail position: %s' % det, where)
     # the self-filter: !is_field_function || !a.is_self()
     flt = None
